@@ -147,6 +147,16 @@ func (p *FloatingIPPlugin) allocateIP(key string, nodeName string, pod *corev1.P
 		}
 	}
 	if len(unallocatedIPRange) > 0 || len(ipInfos) == 0 {
+		if keyObj := util.ParseKey(key); keyObj.Deployment() && keyObj.PoolName != "" {
+			// the ip of a pod of a sized pool is allocated during filter, under the pool lock and against the pool size. If the
+			// pod no longer holds it (it has been given back to the pool in the meantime), the size can't be checked here
+			if _, isPoolSizeDefined, err := p.getDpReplicas(keyObj); err != nil {
+				return nil, err
+			} else if isPoolSizeDefined {
+				return nil, fmt.Errorf("%s holds no ip of pool %s, waiting for the next filter to allocate one within the "+
+					"pool size", key, keyObj.PoolName)
+			}
+		}
 		subnet, err := p.queryNodeSubnet(nodeName)
 		if err != nil {
 			return nil, err
